@@ -12,13 +12,6 @@ def _is_exhaust_edge(ast, label, endvars):
     """True if edge (cond ast, polarity) means 'cursor >= end of buffer'."""
     if not isinstance(label, bool) or ast is None: return False
     s = A.strip(ast)
-    # JSONCONS_UNLIKELY(x) -> __builtin_expect(!!(x), 0) or plain x
-    while s is not None and s.get('k') == 'CallExpr' and A.callee_name(s) == '__builtin_expect':
-        s = A.strip((s.get('args') or [None])[0], casts=True)
-        neg = 0
-        while s is not None and s.get('k') == 'UnaryOperator' and s.get('op') == '!':
-            s = A.strip(s.get('sub'), casts=True); neg += 1
-        if neg % 2: label = not label
     if s is None or s.get('k') != 'BinaryOperator': return False
     op = s.get('op')
     l, r = A.ref_name(s.get('lhs')), A.ref_name(s.get('rhs'))
